@@ -134,10 +134,21 @@ ConsumeE(c, eofNow) == [b EXCEPT !.rem = @ - c, !.pos = @ + c, !.eof = @ \/ eofN
 EofAllowed(eofNow) == eofNow => (b.idx # 0 /\ Truncated(b.idx))
 CanConsume(c) == b.idx # 0 /\ c <= b.rem /\ (b.pos - HdrOff(b.idx) - 1) + c <= arc[b.idx].avail
 
+\* a member from a Mac archive that announces a MacBinary envelope (>= 128 bytes declared) but
+\* yields fewer than 128 bytes: the pass-through decoder cannot be set up.  The inner decoder that
+\* was created for the attempt is released again at once, and nothing can be read.
+MacFail(i) == "macfail" \in DOMAIN arc[i] /\ arc[i].macfail
+OpenFails == Decodable /\ ~r.dec /\ MacFail(r.cur)
+FailedOpen(c, allocOk, eofNow) ==      \* effect of an open attempt that fails in the pass-through
+  /\ live' = live
+  /\ IF allocOk THEN CanConsume(c) /\ EofAllowed(eofNow) /\ b' = ConsumeE(c, eofNow) ELSE c = 0 /\ ~eofNow /\ UNCHANGED b
+  /\ UNCHANGED r
+
 (* lha_reader_read(k): opens the decoder on first use (allocOk = FALSE: that allocation fails) *)
 ReadWith(k, c, allocOk, eofNow) ==
   /\ "reader" \in live
-  /\ IF r.dec \/ (Decodable /\ allocOk)
+  /\ IF OpenFails THEN FailedOpen(c, allocOk, eofNow) /\ UNCHANGED done
+     ELSE IF r.dec \/ (Decodable /\ allocOk)
      THEN LET m == arc[r.cur]
               n == IF k < Len(m.data) - r.dpos THEN k ELSE Len(m.data) - r.dpos
           IN /\ r' = [r EXCEPT !.dec = TRUE, !.dpos = @ + n]
@@ -147,6 +158,7 @@ ReadWith(k, c, allocOk, eofNow) ==
      ELSE /\ c = 0 /\ ~eofNow /\ UNCHANGED <<r, live, b, done>>
   /\ UNCHANGED <<arc, policy, dirStack, deferred, refs, mis>>
 ReadResult(k, allocOk) ==     \* bytes returned by the call (evaluated in the pre-state)
+  IF OpenFails THEN <<>> ELSE
   IF r.dec \/ (Decodable /\ allocOk)
   THEN LET m == arc[r.cur]
            n == IF k < Len(m.data) - r.dpos THEN k ELSE Len(m.data) - r.dpos
@@ -157,10 +169,11 @@ ReadResult(k, allocOk) ==     \* bytes returned by the call (evaluated in the pr
 CheckResult(allocOk) ==
   IF r.ctype # "NORMAL" THEN FALSE
   ELSE IF arc[r.cur].kind # "file" THEN TRUE
-  ELSE allocOk /\ arc[r.cur].sup /\ arc[r.cur].good
+  ELSE allocOk /\ arc[r.cur].sup /\ arc[r.cur].good /\ ~MacFail(r.cur)
 CheckWith(c, allocOk, eofNow) ==
   /\ "reader" \in live
-  /\ IF Decodable /\ allocOk
+  /\ IF OpenFails THEN FailedOpen(c, allocOk, eofNow)
+     ELSE IF Decodable /\ allocOk
      THEN /\ r' = [r EXCEPT !.dec = TRUE, !.dpos = Len(arc[r.cur].data)]
           /\ live' = live \cup {"decoder"}
           /\ CanConsume(c) /\ EofAllowed(eofNow) /\ b' = ConsumeE(c, eofNow)
@@ -180,7 +193,7 @@ InsertDeferred(dq, h) ==
 ExtractResult(fs, allocOk) ==
   CASE r.ctype = "NORMAL" ->
          LET m == arc[r.cur] IN
-         CASE m.kind = "file"  -> allocOk /\ m.sup /\ fs = "ok" /\ m.good
+         CASE m.kind = "file"  -> allocOk /\ m.sup /\ fs = "ok" /\ m.good /\ ~MacFail(r.cur)
            [] m.kind = "dir"   -> fs \in {"made", "exists"}
            [] OTHER            -> allocOk /\ fs = "ok"
     [] r.ctype = "FAKE"  -> TRUE
@@ -193,12 +206,16 @@ ExtractWith(fs, c, allocOk, eofNow) ==
      THEN LET m == arc[r.cur] IN
           /\ done' = [done EXCEPT ![r.cur] = "extracted"]
           /\ CASE m.kind = "file" ->
-                    /\ IF allocOk /\ m.sup
+                    /\ IF OpenFails THEN FailedOpen(c, allocOk, eofNow)
+                       ELSE IF allocOk /\ m.sup
                        THEN /\ live' = live \cup {"decoder"}
                             /\ IF fs = "ok"
                                THEN /\ r' = [r EXCEPT !.dec = TRUE, !.dpos = Len(m.data)]
                                     /\ CanConsume(c) /\ EofAllowed(eofNow) /\ b' = ConsumeE(c, eofNow)
-                               ELSE /\ r' = [r EXCEPT !.dec = TRUE] /\ c = 0 /\ ~eofNow /\ UNCHANGED b
+                               \* (the output file could not be created; a MacBinary pass-through has
+                               \*  already read the envelope from the member's data by then)
+                               ELSE /\ r' = [r EXCEPT !.dec = TRUE]
+                                    /\ CanConsume(c) /\ EofAllowed(eofNow) /\ b' = ConsumeE(c, eofNow)
                        ELSE c = 0 /\ ~eofNow /\ UNCHANGED <<live, r, b>>
                     /\ UNCHANGED <<dirStack, deferred, refs>>
                [] m.kind = "dir" ->
